@@ -492,9 +492,11 @@ def base_inputs(seed, index):
     # an echoed, unchanged passage (a no-op edit: counted as applied, occupies its range) plus a change inside it
     echo = None
     pvs = {pv.pi: pv for pv in (editgen.ParaView(si, pi, p) for pi, (si, p) in enumerate(sem.all_paragraphs(doc)))}
-    for e in batch:
-        if e["kind"] != "replace":
-            continue
+    rng2 = random.Random(seed * 7919 + index)
+    candidates = [e for e in batch if e["kind"] == "replace"]
+    for _ in range(6):       # (the batch may hold no replacement, or none with room around it: look for more)
+        candidates += editgen.gen_batch(rng2, doc, texts, 1, ["replace"], comment_p=0.0)
+    for e in candidates:
         pv = pvs[e["pi"]]
         for k in (8, 5, 3):
             outer = editgen._range_edit(rng, pv, texts, max(0, e["a"] - k), min(len(pv.acc), e["b"] + k), editgen.WordSource(rng), kind="same")
